@@ -91,6 +91,10 @@ type Case struct {
 	NDiff  int      `json:"ndiff"`  // number of 32-bit registers that changed
 	MemAcc int      `json:"memacc"` // accesses to the storage accessor
 	LDSChg bool     `json:"ldschg"` // LDS content changed
+	MemPre  []ByteVal `json:"mempre,omitempty"`  // memory bytes touched by the run: initial content
+	MemPost []ByteVal `json:"mempost,omitempty"` // ... final content
+	LdsPre  []ByteVal `json:"ldspre,omitempty"`  // DS cases: the whole LDS before
+	LdsPost []ByteVal `json:"ldspost,omitempty"` // ... and after
 	Coq    string   `json:"coq,omitempty"`
 }
 
@@ -125,6 +129,12 @@ func fmtName(f insts.FormatType) string {
 		return "VOP3A"
 	case insts.VOP3b:
 		return "VOP3B"
+	case insts.SMEM:
+		return "SMEM"
+	case insts.FLAT:
+		return "FLAT"
+	case insts.DS:
+		return "DS"
 	}
 	return "OTHER"
 }
@@ -209,6 +219,7 @@ func run(c *Case) {
 	if inst.SDst != nil {
 		c.Simm = opCode(inst.SDst) // VOP3b: the scalar destination travels in the immediate slot of the Coq inst
 	}
+	memFields(c, inst)
 	for _, o := range []*insts.Operand{inst.Src0, inst.Src1, inst.Src2} {
 		if o != nil && o.OperandType == insts.LiteralConstant {
 			c.Lit = o.LiteralConstant
@@ -238,7 +249,7 @@ func run(c *Case) {
 	v0 := append([]byte(nil), wf.VRegFile...)
 	l0 := append([]byte(nil), lds...)
 
-	stub := &memStub{}
+	stub := newFlatMem(c.Fill)
 	var alu emu.ALU
 	if c.Alu == "cdna3" {
 		alu = cdna3.NewALU(stub)
@@ -260,6 +271,15 @@ func run(c *Case) {
 	c.Post = Scalars{SCC: wf.SCC(), VCC: wf.VCC(), EXEC: wf.EXEC(), M0: wf.M0, PC: wf.PC()}
 	c.MemAcc = stub.reads + stub.writes
 	c.LDSChg = string(l0) != string(lds)
+	if isMemFmt(c.Fmt) {
+		c.MemPre, c.MemPost = stub.snapshot()
+		if c.Fmt == "DS" {
+			for i := range lds {
+				c.LdsPre = append(c.LdsPre, ByteVal{uint64(i), l0[i]})
+				c.LdsPost = append(c.LdsPost, ByteVal{uint64(i), lds[i]})
+			}
+		}
+	}
 
 	// probe set: registers named by the instruction + every register that changed
 	type key struct{ l, i int }
@@ -282,7 +302,14 @@ func run(c *Case) {
 		}
 	}
 	isVec := strings.HasPrefix(c.Fmt, "VOP")
-	for _, o := range []*insts.Operand{inst.Src0, inst.Src1, inst.Src2, inst.Dst, inst.SDst} {
+	ops := []*insts.Operand{inst.Src0, inst.Src1, inst.Src2, inst.Dst, inst.SDst}
+	if isMemFmt(c.Fmt) {
+		ops = append(ops, inst.Addr, inst.Data, inst.Data1, inst.Base, inst.Offset)
+		if c.Fmt == "FLAT" && c.Src2 >= 0 && c.Src2 <= 100 {
+			named(c.Src2, 2, false)
+		}
+	}
+	for _, o := range ops {
 		if o == nil || o.OperandType != insts.RegOperand {
 			continue
 		}
@@ -295,6 +322,15 @@ func run(c *Case) {
 		n := 1
 		if o.RegCount >= 2 || !isVec || wide64(c.Fmt, c.Op) {
 			n = 2
+		}
+		if isMemFmt(c.Fmt) {
+			n = o.RegCount
+			if n < 1 {
+				n = 1
+			}
+			if c.Fmt == "FLAT" && o == inst.Addr {
+				n = 2
+			}
 		}
 		named(code, n, isVec)
 	}
@@ -347,7 +383,15 @@ func zi(x int) string {
 	return fmt.Sprintf("%d", x)
 }
 
-func pstateCoq(s Scalars, regs []RegVal) string {
+func bytesCoq(bs []ByteVal) string {
+	out := make([]string, len(bs))
+	for i, b := range bs {
+		out[i] = fmt.Sprintf("(%d,%d)", b.Addr, b.Val)
+	}
+	return strings.Join(out, ";")
+}
+
+func pstateCoq(s Scalars, regs []RegVal, mem, lds []ByteVal) string {
 	var sg, vg []string
 	for _, r := range regs {
 		if r.Lane < 0 {
@@ -356,8 +400,8 @@ func pstateCoq(s Scalars, regs []RegVal) string {
 			vg = append(vg, fmt.Sprintf("(%d,%d,%d)", r.Lane, r.Idx, r.Val))
 		}
 	}
-	return fmt.Sprintf("(mkP %d %s %s %d %s [%s] [%s])", s.SCC, z(s.VCC), z(s.EXEC), s.M0, z(s.PC),
-		strings.Join(sg, ";"), strings.Join(vg, ";"))
+	return fmt.Sprintf("(mkP %d %s %s %d %s [%s] [%s] [%s] [%s])", s.SCC, z(s.VCC), z(s.EXEC), s.M0, z(s.PC),
+		strings.Join(sg, ";"), strings.Join(vg, ";"), bytesCoq(mem), bytesCoq(lds))
 }
 
 func caseCoq(c *Case) string {
@@ -368,7 +412,7 @@ func caseCoq(c *Case) string {
 	inst := fmt.Sprintf("(mkInst F_%s %d %s %s %s %s %d %d)", c.Fmt, c.Op, zi(c.Src0), zi(c.Src1), zi(c.Src2), zi(c.Dst), c.Simm, c.Lit)
 	crashed := c.Panic != ""
 	eff := c.MemAcc > 0 || c.LDSChg
-	return fmt.Sprintf("mkCase %s %s %s %s %s %s", arch, inst, pstateCoq(c.Pre, c.Probe), vh.CoqBool(crashed), vh.CoqBool(eff), pstateCoq(c.Post, c.After))
+	return fmt.Sprintf("mkCase %s %s %s %s %s %s", arch, inst, pstateCoq(c.Pre, c.Probe, c.MemPre, c.LdsPre), vh.CoqBool(crashed), vh.CoqBool(eff), pstateCoq(c.Post, c.After, c.MemPost, c.LdsPost))
 }
 
 // ---------------------------------------------------------------- encoders
@@ -1098,6 +1142,36 @@ func main() {
 					c.Wide, c.Kinds, c.Class = wide, kinds, class
 					res.Cases = append(res.Cases, c)
 				}
+			}
+		}
+	}
+	if *rep == "" {
+		rng := vh.NewRng(*seed ^ 0x3e3)
+		for _, alu := range []string{"gcn3", "cdna3"} {
+			for _, m := range memOps {
+				if m.alus != "" && m.alus != alu {
+					continue
+				}
+				first := len(res.Cases)
+				for k := 0; k < memGrid+*perv; k++ {
+					if k < memGrid && !*grid {
+						continue
+					}
+					c := memCase(alu, m, rng.Fork(), k)
+					wide, kinds, class := c.Wide, c.Kinds, c.Class
+					run(&c)
+					c.Wide, c.Kinds, c.Class = wide, kinds, class
+					res.Cases = append(res.Cases, c)
+					if c.NotImp || c.NoDec != "" {
+						break
+					}
+				}
+				impl := len(res.Cases) > first && !res.Cases[first].NotImp && res.Cases[first].NoDec == ""
+				note := ""
+				if !impl && len(res.Cases) > first {
+					note = res.Cases[first].Panic + res.Cases[first].NoDec
+				}
+				res.Ops = append(res.Ops, OpInfo{alu, m.fmt, m.op, impl, note})
 			}
 		}
 	}
